@@ -262,7 +262,7 @@ def tcp_next(E):
 AMT = 'rsocket/transports/abstract_messaging.py::AbstractMessagingTransport'
 
 
-@harness('c04.messaging.next_frame_generator', ['C04', 'C12'], functions=[AMT + '.next_frame_generator'])
+@harness('c04.messaging.next_frame_generator', ['C04', 'C12', 'C11', 'C01'], functions=[AMT + '.next_frame_generator'])
 def msg_next(E):
     from pyvc import aio
     tr = new_obj(E, AMT)
@@ -278,7 +278,9 @@ def msg_next(E):
         item = E.make_exc(E.lookup('rsocket/exceptions.py::RSocketTransportError'))
     else:
         item = E.call(E.lookup('rsocket/frame.py::InvalidFrame'), [])
-    other = SOpaque('frame', 'second-frame')
+    # what is queued behind it: another frame, or the transport failure that arrived in the same burst
+    other_fails = E.path.choice(2, 'second-item-is-the-transport-failure') == 1
+    other = E.make_exc(E.lookup('rsocket/exceptions.py::RSocketTransportError')) if other_fails else E.call(E.lookup('rsocket/frame.py::CancelFrame'), [])
     E.call(E.getattr(q, 'put_nowait'), [item])
     E.call(E.getattr(q, 'put_nowait'), [other])
     try:
@@ -290,8 +292,24 @@ def msg_next(E):
     E.cover('frame-item')
     out = []
     E.run_generator(g, lambda v: out.append(v))
-    E.prove('msg:yields_exactly_the_queued_frame', (not is_exc) and len(out) == 1 and out[0] is item)
-    E.prove('msg:next_item_left_in_queue', q.attrs['_queue'] == [other])
+    rest = list(q.attrs['_queue'])
+    E.prove('msg:yields_the_queued_frame_first_and_only_frames[whether one generator hands over one frame or several is not prescribed]',
+            (not is_exc) and len(out) >= 1 and out[0] is item and not any(isinstance(v, SObj) and v.cls.issubclass(EXC['BaseException']) for v in out))
+    E.prove('msg:nothing_lost_duplicated_or_reordered[yielded ++ still queued = what was queued]',
+            len(out) + len(rest) == 2 and all(a is b for a, b in zip(out + rest, [item, other])))
+    if not rest:
+        return
+    # ... so that the NEXT call treats it like any first item: a queued transport failure is raised to the receiver (which
+    # then runs the connection-lost clean-up), never handed over as if it were a frame
+    try:
+        g2 = E.await_value(E.call(E.getattr(tr, 'next_frame_generator'), []))
+    except PyExc as e:
+        E.prove('@C11,C04,C12:msg:a_transport_failure_queued_behind_a_frame_is_raised_by_the_next_call', other_fails and e.value is other)
+        return
+    out2 = []
+    E.run_generator(g2, lambda v: out2.append(v))
+    E.prove('@C11,C04,C12:msg:a_frame_queued_behind_a_frame_is_yielded_by_the_next_call', (not other_fails) and out2 == [other] or
+            ((not other_fails) and len(out2) == 1 and out2[0] is other))
 
 
 # --------------------------------------------------------------------------- chunk independence, directly (bounded, no loop contract)
